@@ -9,6 +9,8 @@ Consequences when an application mixes process.collect_output() with a stream re
  (B) (audit repro) after one collect_output() a blocked reader never sees later data: it goes to the new list; at EOF
      the reader returns b'' while the data is still buffered.
 Both disappear when the list is emptied in place (proposed patch below); then whoever comes first gets the data.
+STATUS: fixed in /repo by 3acc6dd ("collect_output must empty the receive buffer in place"); prints "not reproduced" there.
+Permanent clause: C19.process.SSHClientProcess._collect_output#post(buffer-list-object-is-kept)
 Run: /venv/bin/python /verif/notes/findings/c19_collect_output_duplicates.py   (no network)
 
 Proposed patch (process.py, SSHClientProcess._collect_output):
@@ -55,7 +57,12 @@ async def main():
     await asyncio.sleep(0)
     p.data_received(b'hello', None)              # data arrives: the reader is woken but has not run yet
     out, _err = p.collect_output()               # task 2 (same loop iteration): polls collect_output()
-    got = await asyncio.wait_for(t, 1)
+    try:
+        got = await asyncio.wait_for(t, 1)
+    except asyncio.TimeoutError:
+        print('collect_output() returned', out, '| read() keeps waiting for new data | _recv_buf_len',
+              p._recv_buf_len, '\nnot reproduced (data delivered once)')
+        return
     print('collect_output() returned', out, '| read() returned', got, '| _recv_buf_len', p._recv_buf_len)
     print('DEFECT REPRODUCED: the same 5 bytes were delivered twice and the byte count is negative'
           if out == got == b'hello' and p._recv_buf_len < 0 else 'not reproduced')
